@@ -16,8 +16,8 @@ use std::path::PathBuf;
 use std::sync::atomic::{AtomicU64, Ordering};
 use std::time::SystemTime;
 
-pub const CAP_PER_TYPE_QUICK: usize = 2000;
-pub const CAP_PER_TYPE_THOROUGH: usize = 30_000;
+pub const CAP_PER_TYPE_QUICK: usize = 1200;
+pub const CAP_PER_TYPE_THOROUGH: usize = 20_000;
 
 pub trait UserCase: DbType<ValueType = Self> + Clone + Debug + Sized {
     const NAME: &'static str;
